@@ -450,6 +450,11 @@ func (g *vc11Gen) opt(name string) **int {
 	default:
 		g.rep.Count(name + "=present")
 		v := g.intv()
+		if g.rng.Intn(4) == 0 {
+			// a present optional integer that is exactly zero must stay PRESENT (not be conflated with null/omitted)
+			g.rep.Count(name + "=present-zero")
+			v = 0
+		}
 		p := &v
 		return &p
 	}
